@@ -67,7 +67,7 @@ type nodeChk struct {
 	snapOutstanding bool
 	snapBaseIdx     uint64   // C09: the latest snapshot installed through Step(MsgSnap) in this incarnation
 	snapBaseConf    *RefConf // ... and its membership
-	preSnapHad      bool // C09: before the current Step(MsgSnap) the log held the snapshot's (index, term)
+	preSnapHad      bool     // C09: before the current Step(MsgSnap) the log held the snapshot's (index, term)
 
 	// C18
 	emitted   *absLog
@@ -155,7 +155,7 @@ type Checker struct {
 	ccProposed    map[string][]byte // context -> marshalled data
 	ccType        map[string]pb.EntryType
 	ccDropped     map[string]bool // context -> the proposing call returned an error
-	neutralBudget map[uint64]int // term -> conf-change proposals delivered to that term's leader
+	neutralBudget map[uint64]int  // term -> conf-change proposals delivered to that term's leader
 	emptyByTerm   map[uint64]map[uint64]bool
 
 	toolErr     string
